@@ -261,15 +261,20 @@ impl DocumentBuilder<'_> {
                 Ok(InputValue::Enum(
                     doc_builder.arbitrary_variant(&enum_)?.clone(),
                 ))
-            } else if let Some(input_object_ty) = doc_builder
+            } else if doc_builder
                 .input_object_type_defs
                 .iter()
-                .find(|io| &io.name == ty.name())
-                .cloned()
+                .any(|io| &io.name == ty.name())
             {
-                enclosing.push(input_object_ty.name.clone());
-                let fields = input_object_ty
-                    .fields
+                // The fields of the definition and of all its extensions
+                let field_defs: Vec<InputValueDef> = doc_builder
+                    .input_object_type_defs
+                    .iter()
+                    .filter(|io| &io.name == ty.name())
+                    .flat_map(|io| io.fields.iter().cloned())
+                    .collect();
+                enclosing.push(ty.name().clone());
+                let fields = field_defs
                     .iter()
                     .map(|field_def| {
                         Ok((
